@@ -4,12 +4,14 @@ import time
 from vlib.common import finish
 from vlib.bounded import Bounded
 from harness import c10 as driver
+from checks._proof import proof_subobligations
 
 PROP = 'C10'
 
 
 def run():
     t0 = time.time()
+    pv, pu, pe, ppart, passumed = proof_subobligations(PROP, ['contracts.c10_caches'], ['ak.ppobj', 'ak.color'])
     b = Bounded(PROP, 'harness.c10')
     driver.run(b)
     sizes = b.notes.get('sizes', {})
@@ -53,4 +55,10 @@ def run():
         "violation (reported as diagnostic)",
         "bounded: histories of <= 12 steps, churns of <= 500 rounds, the fixed object catalogue",
     ]
-    return finish(PROP, 'exploration', b.violations(), [], b.errors, cov, assumptions, t0)
+    cov.update(ppart)
+    _seen, _viol = set(), []
+    for _v in pv + b.violations():
+        if _v.key not in _seen:
+            _seen.add(_v.key)
+            _viol.append(_v)
+    return finish(PROP, 'exploration', _viol, pu, pe + b.errors, cov, passumed + assumptions, t0)
